@@ -62,6 +62,11 @@ def corpus(tier):
     shared = c05.history_batch((1, 3, True), 2, 400000)
     shared.need_threads = True          # a shared memory: the runtime header needs a threads implementation
     out.append(('memory-shared', shared))
+    # atomic instructions: every flavour, results returned / above an operand / compared (plain and shared memory)
+    import c16
+    out.append(('atomics', c16.e1_batches(False)))
+    ash = c16.e1_batches(True); ash.need_threads = True
+    out.append(('atomics-shared', ash))
     allpairs = [(a, b) for a in sorted(STORES) for b in sorted(STORES)]
     out.append(('memory-sequences', c05.sequence_batch(allpairs[::4] if tier == 'quick' else allpairs)))
     # control flow inside fixed contexts (dead code followed by live code, operands below value-carrying blocks)
